@@ -7,7 +7,9 @@
 (*  - pipeline part: sequences of publishes (batches of up to MaxBatch      *)
 (*    values, with injected seal failures), subscribers, pause / resume,    *)
 (*    restart, change of the environment variable, tampering, and - with    *)
-(*    two replicas - subscribers served by the follower and leader changes. *)
+(*    two replicas - subscribers served by the follower and leader changes; *)
+(*    metadata snapshots, restart from a snapshot or by replay, a running   *)
+(*    server installing a snapshot.                                         *)
 (*    Also the                                                              *)
 (*    stimulus generator (-simulate with Sim_Encryption.cfg).               *)
 EXTENDS Encryption, TLC
@@ -18,35 +20,35 @@ CONSTANTS Lens,        \* value lengths of the table
           MaxPub,      \* values published in a behaviour
           MaxBatch,
           MaxSteps,
-          MaxFailBatches, MaxRestart, MaxTamper, MaxEnv, MaxPause, MaxSub, MaxLead,
+          MaxFailBatches, MaxRestart, MaxTamper, MaxEnv, MaxPause, MaxSub, MaxLead, MaxSnap, MaxInstall,
           PubClasses,  \* value classes drawn for published values (the stimulus generator draws one and the
           Hows,        \* check re-draws class, scheduling and tampered region itself: decoration that the
           TamperRegs   \* model's outcome does not depend on)
 
-VARIABLES last, nPub, nStep, nFail, nRestart, nTamper, nEnv, nPause, nSub, nLead
-budget == <<nPub, nStep, nFail, nRestart, nTamper, nEnv, nPause, nSub, nLead>>
+VARIABLES last, nPub, nStep, nFail, nRestart, nTamper, nEnv, nPause, nSub, nLead, nSnap, nInstall
+budget == <<nPub, nStep, nFail, nRestart, nTamper, nEnv, nPause, nSub, nLead, nSnap, nInstall>>
 mcvars == <<vars, last, budget>>
 
 MCInit ==
   /\ Init /\ env = "k1" /\ lead = [s \in Streams |-> CHOOSE r \in Replicas : TRUE]
   /\ last = [a |-> "Open"]
-  /\ nPub = 0 /\ nStep = 0 /\ nFail = 0 /\ nRestart = 0 /\ nTamper = 0 /\ nEnv = 0 /\ nPause = 0 /\ nSub = 0 /\ nLead = 0
+  /\ nPub = 0 /\ nStep = 0 /\ nFail = 0 /\ nRestart = 0 /\ nTamper = 0 /\ nEnv = 0 /\ nPause = 0 /\ nSub = 0 /\ nLead = 0 /\ nSnap = 0 /\ nInstall = 0
 
 \* ---- table part
 MCRead(n, c) ==
   /\ obs' = [a |-> "Read", out |-> ReadT(Abs(c, n))]
   /\ last' = [a |-> "Read", n |-> n, c |-> c]
-  /\ UNCHANGED <<up, env, lead, hk, paused, log, budget>>
+  /\ UNCHANGED <<up, env, lead, hk, paused, log, menc, snap, budget>>
 
 MCSeal(n) ==
   /\ obs' = [a |-> "Seal", s |-> SealT(n)]
   /\ last' = [a |-> "Seal", n |-> n]
-  /\ UNCHANGED <<up, env, lead, hk, paused, log, budget>>
+  /\ UNCHANGED <<up, env, lead, hk, paused, log, menc, snap, budget>>
 
 MCNew(m) ==
   /\ obs' = [a |-> "New", ok |-> NewT(m)]
   /\ last' = [a |-> "New", m |-> m]
-  /\ UNCHANGED <<up, env, lead, hk, paused, log, budget>>
+  /\ UNCHANGED <<up, env, lead, hk, paused, log, menc, snap, budget>>
 
 \* ---- pipeline part
 Step == nStep < MaxSteps /\ last.a \notin {"Read", "Seal", "New"}
@@ -63,56 +65,71 @@ MCPublish(s, b, fails, how) ==
   /\ DoPublish(s, Vals(b), fails)
   /\ last' = [a |-> "Publish", s |-> s, vals |-> Vals(b), fails |-> fails, how |-> how]
   /\ nPub' = nPub + Len(b) /\ nFail' = (IF fails # {} THEN nFail + 1 ELSE nFail) /\ Tick
-  /\ UNCHANGED <<nRestart, nTamper, nEnv, nPause, nSub, nLead>>
+  /\ UNCHANGED <<nRestart, nTamper, nEnv, nPause, nSub, nLead, nSnap, nInstall>>
 
 MCSubscribe(s, from, rev, at) ==
   /\ nSub < MaxSub
   /\ DoSubscribe(s, from, rev, at)
   /\ last' = [a |-> "Subscribe", s |-> s, from |-> from, rev |-> rev, at |-> at]
-  /\ nSub' = nSub + 1 /\ Tick /\ UNCHANGED <<nPub, nFail, nRestart, nTamper, nEnv, nPause, nLead>>
+  /\ nSub' = nSub + 1 /\ Tick /\ UNCHANGED <<nPub, nFail, nRestart, nTamper, nEnv, nPause, nLead, nSnap, nInstall>>
 
 MCPause(s) ==
   /\ nPause < MaxPause
   /\ DoPause(s)
   /\ last' = [a |-> "Pause", s |-> s]
-  /\ nPause' = nPause + 1 /\ Tick /\ UNCHANGED <<nPub, nFail, nRestart, nTamper, nEnv, nSub, nLead>>
+  /\ nPause' = nPause + 1 /\ Tick /\ UNCHANGED <<nPub, nFail, nRestart, nTamper, nEnv, nSub, nLead, nSnap, nInstall>>
 
 MCResume(s) ==
   /\ DoResume(s)
   /\ last' = [a |-> "Resume", s |-> s]
-  /\ Tick /\ UNCHANGED <<nPub, nFail, nRestart, nTamper, nEnv, nPause, nSub, nLead>>
+  /\ Tick /\ UNCHANGED <<nPub, nFail, nRestart, nTamper, nEnv, nPause, nSub, nLead, nSnap, nInstall>>
 
 MCSetEnv(k) ==
   /\ nEnv < MaxEnv /\ k # env
   /\ DoSetEnv(k)
   /\ last' = [a |-> "SetEnv", k |-> k]
-  /\ nEnv' = nEnv + 1 /\ Tick /\ UNCHANGED <<nPub, nFail, nRestart, nTamper, nPause, nSub, nLead>>
+  /\ nEnv' = nEnv + 1 /\ Tick /\ UNCHANGED <<nPub, nFail, nRestart, nTamper, nPause, nSub, nLead, nSnap, nInstall>>
 
 \* (the harness restarts a one-server cluster only)
 MCRestart ==
   /\ nRestart < MaxRestart /\ Cardinality(Replicas) = 1
   /\ DoRestart
   /\ last' = [a |-> "Restart"]
-  /\ nRestart' = nRestart + 1 /\ Tick /\ UNCHANGED <<nPub, nFail, nTamper, nEnv, nPause, nSub, nLead>>
+  /\ nRestart' = nRestart + 1 /\ Tick /\ UNCHANGED <<nPub, nFail, nTamper, nEnv, nPause, nSub, nLead, nSnap, nInstall>>
 
 MCTamper(r, j, reg) ==
   /\ nTamper < MaxTamper
   /\ log[r]["enc"][j].k # "none"
   /\ DoTamper(r, j)
   /\ last' = [a |-> "Tamper", r |-> r, j |-> j, reg |-> reg]
-  /\ nTamper' = nTamper + 1 /\ Tick /\ UNCHANGED <<nPub, nFail, nRestart, nEnv, nPause, nSub, nLead>>
+  /\ nTamper' = nTamper + 1 /\ Tick /\ UNCHANGED <<nPub, nFail, nRestart, nEnv, nPause, nSub, nLead, nSnap, nInstall>>
+
+\* a snapshot is persisted by a server (one-server clusters: followed by a restart it decides how the
+\* metadata is recovered)
+MCSnapshot(r) ==
+  /\ nSnap < MaxSnap
+  /\ DoSnapshot(r)
+  /\ last' = [a |-> "Snapshot", r |-> r]
+  /\ nSnap' = nSnap + 1 /\ Tick /\ UNCHANGED <<nPub, nFail, nRestart, nTamper, nEnv, nPause, nSub, nLead, nInstall>>
+
+MCInstall(r) ==
+  /\ nInstall < MaxInstall
+  /\ \A s \in Streams : ~paused[s]
+  /\ DoInstall(r)
+  /\ last' = [a |-> "Install", r |-> r]
+  /\ nInstall' = nInstall + 1 /\ Tick /\ UNCHANGED <<nPub, nFail, nRestart, nTamper, nEnv, nPause, nSub, nLead, nSnap>>
 
 MCLeaderChange(s) ==
   /\ nLead < MaxLead
   /\ DoLeaderChange(s)
   /\ last' = [a |-> "LeaderChange", s |-> s]
-  /\ nLead' = nLead + 1 /\ Tick /\ UNCHANGED <<nPub, nFail, nRestart, nTamper, nEnv, nPause, nSub>>
+  /\ nLead' = nLead + 1 /\ Tick /\ UNCHANGED <<nPub, nFail, nRestart, nTamper, nEnv, nPause, nSub, nSnap, nInstall>>
 
 MCCreateProbe ==
   /\ last.a = "SetEnv"
   /\ DoCreateProbe
   /\ last' = [a |-> "CreateProbe"]
-  /\ Tick /\ UNCHANGED <<nPub, nFail, nRestart, nTamper, nEnv, nPause, nSub, nLead>>
+  /\ Tick /\ UNCHANGED <<nPub, nFail, nRestart, nTamper, nEnv, nPause, nSub, nLead, nSnap, nInstall>>
 
 MCNext ==
   \/ (TableOn /\ last.a = "Open") /\ \E n \in Lens : \E c \in Cases(n) : MCRead(n, c)
@@ -128,6 +145,8 @@ MCNext ==
   \/ (Step /\ up) /\ \E r \in Replicas : \E j \in 1..Len(log[r]["enc"]) : \E reg \in TamperRegs : MCTamper(r, j, reg)
   \/ Step /\ MCCreateProbe
   \/ (Step /\ up) /\ \E s \in Streams : MCLeaderChange(s)
+  \/ (Step /\ up) /\ \E r \in Replicas : MCSnapshot(r)
+  \/ (Step /\ up) /\ \E r \in Replicas : MCInstall(r)
 
 MCSpec == MCInit /\ [][MCNext]_mcvars
 
@@ -138,7 +157,7 @@ StepOK ==
     [] a.a = "Publish" -> P_Publish(a.s, a.vals, a.fails)
     [] a.a = "Subscribe" -> P_Subscribe(a.s, a.from, a.rev, a.at)
     [] a.a = "Tamper" -> P_Tamper
-    [] a.a \in {"Pause", "Resume", "SetEnv", "Restart", "CreateProbe", "LeaderChange"} -> P_Quiet
+    [] a.a \in {"Pause", "Resume", "SetEnv", "Restart", "CreateProbe", "LeaderChange", "Snapshot", "Install"} -> P_Quiet
     [] OTHER -> TRUE
 StepsOK == [][StepOK]_mcvars
 
@@ -146,5 +165,5 @@ StepsOK == [][StepOK]_mcvars
 C17_NoGarbage == obs.a = "Subscribe" => \A j \in 1..Len(obs.got) : obs.got[j] > 0
 
 \* an injected seal failure leaves no trace in the log: every entry carries a value that was acknowledged
-MCView == <<up, env, lead, hk, paused, log, obs, last, budget>>
+MCView == <<up, env, lead, hk, paused, log, menc, snap, obs, last, budget>>
 =============================================================================
